@@ -375,6 +375,9 @@ func matchInit(segmentPart string, cfg *ResponseConfig, drmCfg *drm.DrmConfig, a
 					im.init = rep.encData.initEnc[scheme].initRaw
 				default:
 					// Here we should encrypt the raw init segment (and possibly add PSSH boxes)
+					if drmCfg == nil {
+						return im, fmt.Errorf("drm parameter %q, but no DRM configured", cfg.DRM)
+					}
 					drmCfg, ok := drmCfg.Map[cfg.DRM]
 					if !ok {
 						return im, fmt.Errorf("drm configuration %q not found", cfg.DRM)
@@ -460,6 +463,12 @@ func encryptFrags(log *slog.Logger, cfg *ResponseConfig, drmCfg *drm.DrmConfig,
 	var key, kid, iv []byte
 	var scheme string
 	ed := rp.encData
+	if ed == nil {
+		if rp.PreEncrypted {
+			return fmt.Errorf("drm parameter %q, but pre-encrypted representation %s cannot be encrypted again", cfg.DRM, rp.ID)
+		}
+		return nil // No encryption data (e.g. subtitles): served in the clear, as signaled in the MPD
+	}
 	switch cfg.DRM {
 	case "eccp-cenc", "eccp-cbcs":
 		scheme = strings.TrimPrefix(cfg.DRM, "eccp-")
@@ -467,6 +476,9 @@ func encryptFrags(log *slog.Logger, cfg *ResponseConfig, drmCfg *drm.DrmConfig,
 		key = ed.key[:]
 		iv = ed.iv[:]
 	default: //  cfg.DRM != ""
+		if drmCfg == nil {
+			return fmt.Errorf("drm parameter %q, but no DRM configured", cfg.DRM)
+		}
 		dd, ok := drmCfg.Map[cfg.DRM]
 		if !ok {
 			return fmt.Errorf("drm configuration %q not found", cfg.DRM)
